@@ -207,12 +207,13 @@ def _contains_shape(fn):
     """Translate __contains__ into a formula and compare with: root equal and forall element (own unset or equal)."""
     from engine.boolform import function_formula, mk
     got = function_formula(fn)
-    want = mk('and', [('atom', 'self.root == other.root'),
+    want = mk('and', [('atom', 'other.root == self.root'),
                       ('forall', 'self.url_elements',
                        mk('or', [('atom', 'getattr(self, $0) is None'),
-                                 ('atom', 'getattr(self, $0) == getattr(other, $0)')]))])
-    alt = mk('and', [('atom', 'other.root == self.root'), want[2] if want[0] == 'and' else want])
-    if got == want or got == alt:
+                                 ('atom', 'getattr(other, $0) == getattr(self, $0)')]))])
+    from engine.boolform import equivalent
+    same, _counter = equivalent(got, want)
+    if same:
         return True, '__contains__ rejects iff root differs or an own element is set and differs from the other one'
     return False, (f'__contains__ is {got}; required: roots equal and for every element of url_elements (own element unset '
                    f'or equal to the other one)')
